@@ -174,6 +174,8 @@ func main() {
 		bin = filepath.Join(bindir, "mosssim-race")
 	}
 
+	// the search budget starts once the worker has been (re)built
+	searchStart := time.Now()
 	workers := 16
 	if s := os.Getenv("VERIF_WORKERS"); s != "" {
 		if v, err := strconv.Atoi(s); err == nil && v > 0 {
@@ -193,7 +195,7 @@ func main() {
 			defer wg.Done()
 			// a worker process is restarted every chunk of wall-clock so that
 			// leaked resources of abnormal runs stay bounded
-			deadline := start.Add(time.Duration(budget) * time.Second)
+			deadline := searchStart.Add(time.Duration(budget) * time.Second)
 			idx := w
 			for time.Now().Before(deadline) {
 				left := time.Until(deadline)
